@@ -249,7 +249,7 @@ pub fn run(ctx: &mut Ctx) {
 
     // F4: combine, Rust API and C API, plus gen/op
     let cmax = if quick { 40 } else { 70 };
-    let big: [u64; 10] = [0, 1, 65520, 65521, 65522, (1 << 31) - 1, 1 << 32, (1 << 32) + 12345, (1 << 62) + 3, (1u64 << 63) - 1];
+    let big: [u64; 14] = [0, 1, 65520, 65521, 65522, (1 << 31) - 1, 1 << 31, (1 << 32) - 1, 1 << 32, (1 << 32) + 5, (1 << 32) + 12345, (1 << 40) + 7, (1 << 62) + 3, (1u64 << 63) - 1];
     for (pname, pat) in &pats {
         for la in 0..=cmax {
             ctx.case(
@@ -302,6 +302,13 @@ pub fn run(ctx: &mut Ctx) {
                             if g1 != want || g2 != want || g3 != want {
                                 return Err(format!("crc32_combine(crc1={ca:#x}, crc2={crc2:#x}, len2={len2}) = {g1:#x}/{g2:#x}/{g3:#x}, reference {want:#x}"));
                             }
+                            // every C entry point takes the whole 64-bit offset (z_off_t is 64 bits wide here)
+                            let g4 = libz_rs_sys::crc32_combine(ca as _, crc2 as _, len2 as _) as u32;
+                            let g5 = libz_rs_sys::crc32_combine_op(ca as _, crc2 as _, libz_rs_sys::crc32_combine_gen(len2 as _)) as u32;
+                            let g6 = libz_rs_sys::crc32_combine_op(ca as _, crc2 as _, libz_rs_sys::crc32_combine_gen64(len2 as i64)) as u32;
+                            if std::mem::size_of::<libz_rs_sys::z_off_t>() == 8 && (g4 != want || g5 != want) || g6 != want {
+                                return Err(format!("C entry points crc32_combine / crc32_combine_gen / crc32_combine_gen64 (crc1={ca:#x}, crc2={crc2:#x}, len2={len2}) = {g4:#x}/{g5:#x}/{g6:#x}, reference {want:#x}"));
+                            }
                         }
                         for ad2 in [1u32, (65520 << 16) | 65520, (77 << 16) | 3] {
                             c.exec();
@@ -310,6 +317,10 @@ pub fn run(ctx: &mut Ctx) {
                             let g3 = libz_rs_sys::adler32_combine64(aa as _, ad2 as _, len2 as i64) as u32;
                             if g1 != want || g3 != want {
                                 return Err(format!("adler32_combine(ad1={aa:#x}, ad2={ad2:#x}, len2={len2}) = {g1:#x}/{g3:#x}, reference {want:#x}"));
+                            }
+                            let g4 = libz_rs_sys::adler32_combine(aa as _, ad2 as _, len2 as _) as u32;
+                            if std::mem::size_of::<libz_rs_sys::z_off_t>() == 8 && g4 != want {
+                                return Err(format!("C entry point adler32_combine(ad1={aa:#x}, ad2={ad2:#x}, len2={len2}) = {g4:#x}, reference {want:#x}"));
                             }
                         }
                     }
